@@ -148,6 +148,13 @@ def run(tier, replay=None):
     nout = common.run_harness_json(["c12"], {"notif": True}, timeout=120, crash_ok=True)
     if "_crash" in nout:
         run_.diverge("registry=notification-handlers process-crash", nout["_crash"][:1200], {"cmd": ["c12"], "input": {"notif": True}})
+    # an entry registered again with the same descriptor value and a new handler is served by the new handler (Registry: Register replaces)
+    for ru in (nout.get("reuse") or []) if "_crash" not in nout else []:
+        run_.evaluations += 1
+        run_.nontriv(["reuse", ru["kind"], ru["registered"]])
+        if not ru["served_by_it"]:
+            run_.diverge("registry=%s same-descriptor-new-handler" % ru["kind"], "registered for the %s time with the same descriptor and a new handler; the call was answered %s"
+                         % (ru["registered"], ru["answer"][:200]), {"cmd": ["c12"], "input": {"notif": True}, "observed": ru, "spec": "Registry (Register replaces the entry)"})
     else:
         for r in nout.get("notif") or []:
             run_.evaluations += 1
